@@ -98,7 +98,7 @@ Inductive SimpleB : bool -> bool -> stmt -> Prop :=
 | B_ifelse inl inr c a b : ValOk c -> SimpleB inl inr a -> SimpleB inl inr b -> SimpleB inl inr (SIf c a (Some b))
 | B_block inl inr l : SimpleBL inl inr l -> SimpleB inl inr (SBlock l)
 | B_while inl inr c a : ValOk c -> SimpleB true inr a -> SimpleB inl inr (SRepeat (LWhile c) a)
-| B_count inl inr n a : plain_rval mt n = true -> SimpleB true inr a -> SimpleB inl inr (SRepeat (LCount n) a)
+| B_count inl inr n a : ValOk n -> SimpleB true inr a -> SimpleB inl inr (SRepeat (LCount n) a)
 | B_infinite inl inr a : SimpleB true inr a -> SimpleB inl inr (SRepeat LInfinite a)
 | B_idx inl inr l v pre body : idx_form rt mt l v pre -> SimpleB true inr body -> SimpleB inl inr (SRepeat l body)
 | B_lights inl inr l x ov pre body : light_form rt mt l x ov pre -> SimpleB true inr body -> SimpleB inl inr (SRepeat l body)
@@ -355,6 +355,15 @@ Proof.
   - rewrite c_rval_expr, forallb_app, (cexpr_no_routine e He). reflexivity.
 Qed.
 
+Lemma valok_counter_no_routine v : ValOk v -> forallb not_routine (c_rval rt mt v (DLoop LV_COUNTER)) = true.
+Proof.
+  intros [v0 Hp|f args d Hb Hf Hp _|f args ps Hb Hp|e He].
+  - exact (c_rval_counter_no_routine rt mt v0 Hp).
+  - rewrite (c_rcall f args d _ Hb Hf), forallb_app, (call_code_no_routine d f args Hp). reflexivity.
+  - rewrite (c_rcall_builtin f args ps _ Hb), forallb_app, (bcall_code_no_routine ps f args Hp). reflexivity.
+  - rewrite c_rval_expr, forallb_app, (cexpr_no_routine e He). reflexivity.
+Qed.
+
 Lemma simpleB_no_routine :
   (forall inl inr st, SimpleB inl inr st -> forall after, forallb not_routine (c_stmt rt mt false after st) = true) /\
   (forall inl inr l, SimpleBL inl inr l -> forall after, forallb not_routine (c_stmt rt mt false after (SBlock l)) = true).
@@ -377,7 +386,7 @@ Proof.
   - intros inl inr l _ IH after. exact (IH after).
   - intros inl inr c a Hc _ IHa after. rewrite c_loop_after, c_whileB, app_nil_r, !forallb_app, (IHa (Some 1)),
       (valok_no_routine c Hc). reflexivity.
-  - intros inl inr n a Hn _ IHa after. rewrite c_loop_after, c_count, !forallb_app, (IHa _), (c_rval_counter_no_routine rt mt n Hn). reflexivity.
+  - intros inl inr n a Hn _ IHa after. rewrite c_loop_after, c_count, !forallb_app, (IHa _), (valok_counter_no_routine n Hn). reflexivity.
   - intros inl inr a _ IHa after. rewrite c_loop_after, c_infinite, app_nil_r, !forallb_app, (IHa (Some 1)). reflexivity.
   - intros inl inr l v pre body Hform _ IHa after. destruct Hform as (Hcode & Hnr & _). rewrite c_loop_after, Hcode, !forallb_app, (IHa _), Hnr. reflexivity.
   - intros inl inr l x ov pre body Hform _ IHa after. destruct Hform as (Hcode & Hnr & _). rewrite c_loop_after, Hcode, !forallb_app, (IHa _), Hnr, counter_post_no_routine. reflexivity.
@@ -1108,6 +1117,54 @@ Proof.
     split; [change (m_stack sp, fr sp) with (m_stack s, fr s'); rewrite Hfr; reflexivity|]. split; [rewrite app_nil_r; exact Ht|apply rf_get_set_same].
 Qed.
 
+(* a value in the place of a count arrives in the COUNTER of the loop frame on top *)
+Lemma move_result_lv im s kk x lv d r : fetch im (m_pc s) = Some (I2 OC_MOVE (PReg R_RESULT) (PLoopVar kk)) ->
+  rf_get (m_regs s) R_RESULT = Some x -> m_frames s = FLoop lv d :: r -> esteps 1 im s = Some (with_lv s kk x 1, []).
+Proof.
+  intros Hf Hr Hfr. apply (estep1 im s _ _ _ Hf). cbn [Machine.exec i_op i_p0 i_p1 I2]. unfold get_reg. rewrite Hr. cbn [bind put_dest].
+  rewrite Hfr. cbn [put_loopvar bind lift]. f_equal.
+  unfold with_lv, advance, with_pc, with_frames, with_vars. cbn [m_pc m_regs m_globals m_frames m_stack m_unnamed m_world]. rewrite Hfr. reflexivity.
+Qed.
+Lemma val_counter_runs v : ValOk v -> forall fuel, (forall k, (k < fuel)%nat -> body_sim k) -> forall im ss s x ss1 lv d r, routines_loaded im -> sim ss s ->
+  m_frames s = FLoop lv d :: r -> code_at im (m_pc s) (c_rval rt mt v (DLoop LV_COUNTER)) -> eval_rval rt mt fuel false ss v = ROk x ss1 ->
+  exists n s' evs r', esteps n im s = Some (s', evs) /\ sim ss1 s' /\ m_pc s' = m_pc s + zlength (c_rval rt mt v (DLoop LV_COUNTER)) /\
+                      m_stack s' = m_stack s /\ m_frames s' = FLoop (lv_set lv LV_COUNTER x) d :: r' /\ erase r' = erase r /\
+                      rev (s_trace ss1) = rev (s_trace ss) ++ evs.
+Proof.
+  intros [v0 Hp|f args dd Hb Hf Hp Hm|f args ps Hb Hp|e He0] fuel Hbs im ss s x ss1 lv d r Hload Hsim Hfr Hc He.
+  - destruct (counter_init rt mt v0 Hp im ss s x ss1 fuel lv d r Hsim Hfr Hc He) as [Hs1 [n Hn]]. subst ss1.
+    exists n, (with_counter s x (zlength (c_rval rt mt v0 (DLoop LV_COUNTER)))), [], r. split; [exact Hn|]. split; [apply sim_with_counter; exact Hsim|].
+    split; [reflexivity|]. split; [reflexivity|]. split; [unfold with_counter; cbn [m_frames]; rewrite Hfr; reflexivity|]. split; [reflexivity|]. rewrite app_nil_r. reflexivity.
+  - destruct fuel as [|f1]; [discriminate|]. rewrite eval_rval_S in He. destruct f1 as [|f2]; [discriminate|].
+    rewrite (c_rcall f args dd _ Hb Hf) in *. cbn [dest_param] in *. apply code_at_app in Hc. destruct Hc as [Hcc Hmv]. cbn [code_at] in Hmv. destruct Hmv as [Hfm _].
+    destruct (call_runs f2 (fun k Hk => Hbs k ltac:(lia)) f args dd Hb Hf Hp im ss s x ss1 Hload Hsim Hcc He) as (n & s1 & evs & E & Hs1 & Hpc & Hsf & Ht & Hres).
+    injection Hsf as Hsk Hfe. unfold fr in Hfe. rewrite Hfr in Hfe. destruct (erase_loop_inv _ _ _ _ Hfe) as [r1 [Hfr1 Her1]].
+    assert (Hfm' : fetch im (m_pc s1) = Some (I2 OC_MOVE (PReg R_RESULT) (PLoopVar LV_COUNTER))) by (rewrite Hpc; exact Hfm).
+    pose proof (move_result_lv im s1 LV_COUNTER x lv d r1 Hfm' (Hres Hm) Hfr1) as E2.
+    exists (n + 1)%nat, (with_lv s1 LV_COUNTER x 1), (evs ++ []), r1. split; [eapply esteps_app; eassumption|]. split; [apply sim_with_lv; exact Hs1|].
+    split; [unfold with_lv; cbn [m_pc]; rewrite Hpc; unfold zlength; rewrite app_length, Nat2Z.inj_add; cbn [length]; lia|]. split; [exact Hsk|].
+    split; [unfold with_lv; cbn [m_frames]; rewrite Hfr1; reflexivity|]. split; [exact Her1|]. rewrite app_nil_r. exact Ht.
+  - destruct fuel as [|f1]; [discriminate|]. rewrite eval_rval_S in He. destruct f1 as [|f2]; [discriminate|].
+    rewrite (c_rcall_builtin f args ps _ Hb) in *. cbn [dest_param] in *. apply code_at_app in Hc. destruct Hc as [Hcc Hmv]. cbn [code_at] in Hmv. destruct Hmv as [Hfm _].
+    destruct (builtin_runs f2 (fun k Hk => Hbs k ltac:(lia)) f args ps Hb Hp im ss s x ss1 Hload Hsim Hcc He) as (n & s1 & evs & E & Hs1 & Hpc & Hsf & Ht & Hres).
+    injection Hsf as Hsk Hfe. unfold fr in Hfe. rewrite Hfr in Hfe. destruct (erase_loop_inv _ _ _ _ Hfe) as [r1 [Hfr1 Her1]].
+    assert (Hfm' : fetch im (m_pc s1) = Some (I2 OC_MOVE (PReg R_RESULT) (PLoopVar LV_COUNTER))) by (rewrite Hpc; exact Hfm).
+    pose proof (move_result_lv im s1 LV_COUNTER x lv d r1 Hfm' Hres Hfr1) as E2.
+    exists (n + 1)%nat, (with_lv s1 LV_COUNTER x 1), (evs ++ []), r1. split; [eapply esteps_app; eassumption|]. split; [apply sim_with_lv; exact Hs1|].
+    split; [unfold with_lv; cbn [m_pc]; rewrite Hpc; unfold zlength; rewrite app_length, Nat2Z.inj_add; cbn [length]; lia|]. split; [exact Hsk|].
+    split; [unfold with_lv; cbn [m_frames]; rewrite Hfr1; reflexivity|]. split; [exact Her1|]. rewrite app_nil_r. exact Ht.
+  - destruct fuel as [|f1]; [discriminate|]. rewrite eval_rval_S in He. rewrite c_rval_expr in *. cbn [dest_param] in *.
+    apply code_at_app in Hc. destruct Hc as [Hce Hpop]. cbn [code_at] in Hpop. destruct Hpop as [Hfpop _].
+    destruct (cexpr_runs e He0 f1 (fun k Hk => Hbs k ltac:(lia)) im ss s x ss1 Hload Hsim Hce He) as (n & s1 & evs & E & Hs1 & Hpc & Hsk & Hfe & Ht).
+    unfold fr in Hfe. rewrite Hfr in Hfe. destruct (erase_loop_inv _ _ _ _ Hfe) as [r1 [Hfr1 Her1]].
+    assert (Hfpop' : fetch im (m_pc s1) = Some (I1 OC_POP (PLoopVar LV_COUNTER))) by (rewrite Hpc; exact Hfpop).
+    pose proof (pop_lv_step im s1 LV_COUNTER x (m_stack s) lv d r1 Hfpop' Hsk Hfr1) as E2.
+    exists (n + 1)%nat, (with_lv (with_stack s1 (m_stack s)) LV_COUNTER x 1), (evs ++ []), r1. split; [eapply esteps_app; eassumption|].
+    split; [apply sim_with_lv; apply sim_with_stack; exact Hs1|].
+    split; [unfold with_lv; cbn [with_stack m_pc]; rewrite Hpc; unfold zlength; rewrite app_length, Nat2Z.inj_add; cbn [length]; lia|]. split; [reflexivity|].
+    split; [unfold with_lv; cbn [with_stack m_frames]; rewrite Hfr1; reflexivity|]. split; [exact Her1|]. rewrite app_nil_r. exact Ht.
+Qed.
+
 Theorem simpleB_simulation_upto : bodies_ok -> forall fuel0 : nat,
   (forall inl inr st, SimpleB inl inr st ->
      forall after im ss s sig ss' fuel, (fuel <= fuel0)%nat -> routines_loaded im -> in_loop_ok inl after -> in_ret_ok inr (m_frames s) ->
@@ -1498,9 +1555,9 @@ Proof.
     assert (E1 : esteps 1 im s = Some (s1, [])) by (apply (estep1 im s _ _ _ Hfl); reflexivity).
     assert (Hs1 : sim ss s1) by (destruct Hsim; constructor; cbn; assumption).
     assert (HcN1 : code_at im (m_pc s1) N) by exact HcN.
-    destruct (counter_init rt mt cn Hn im ss s1 cnt sa fuel [] d (m_frames s) Hs1 eq_refl HcN1 Ev) as [Hsa [nN HnN]]. subst sa. fold N in HnN. fold kN in HnN.
-    set (s2 := with_counter s1 cnt kN) in *.
-    assert (Hs2 : sim ss s2) by (apply sim_with_counter; exact Hs1).
+    destruct (val_counter_runs cn Hn fuel (fun k Hk => Hbs k ltac:(lia)) im ss s1 cnt sa [] d (m_frames s) Hload Hs1 eq_refl HcN1 Ev)
+      as (nN & s2 & eN & r2 & HnN & Hs2 & Hpc2 & Hsk2 & Hfr2 & Her2 & HtN).
+    fold N in Hpc2. fold kN in Hpc2.
     assert (Hin1 : in_loop_ok true (Some (4 + 1))) by (intros _; exists (4 + 1); reflexivity).
     assert (Hiter : forall f ss1 sx sg ssx lv c0 r,
               (f <= fuel0)%nat -> sim ss1 sx -> m_pc sx = P0 + 1 + kN -> m_frames sx = FLoop lv d :: r -> erase r = erase (m_frames s) -> lv_get lv LV_COUNTER = Some c0 -> m_stack sx = m_stack s ->
@@ -1582,20 +1639,21 @@ Proof.
         split; [eapply esteps_app; [exact Et|eapply esteps_app; [exact Ej|exact E5]]|].
         split; [exact Hs5|]. split; [rewrite Hpc5; unfold s4; cbn [with_pc m_pc]; rewrite Hpc3; lia|].
         split; [exact Hst5|]. rewrite app_nil_r. reflexivity. }
-    destruct (Hiter fuel ss s2 sig ss' (lv_set [] LV_COUNTER cnt) cnt (m_frames s) ltac:(lia) Hs2) as [[Hsig (n & sy & evs & En & Hsy & Hpcy & Hsty & Hty)]|[Hinr [v [Hsig Hret]]]].
-    { unfold s2, s1. cbn [with_counter advance with_pc with_frames with_vars m_pc]. fold P0. reflexivity. }
-    { reflexivity. }
-    { reflexivity. }
+    destruct (Hiter fuel sa s2 sig ss' (lv_set [] LV_COUNTER cnt) cnt r2 ltac:(lia) Hs2) as [[Hsig (n & sy & evs & En & Hsy & Hpcy & Hsty & Hty)]|[Hinr [v [Hsig Hret]]]].
+    { rewrite Hpc2. unfold s1. cbn [advance with_pc with_frames with_vars m_pc]. fold P0. reflexivity. }
+    { exact Hfr2. }
+    { exact Her2. }
     { apply lv_get_set. }
-    { reflexivity. }
+    { exact Hsk2. }
     { exact He. }
-    + left. split; [exact Hsig|]. exists (1 + (nN + n))%nat, sy, ([] ++ ([] ++ evs)).
+    + left. split; [exact Hsig|]. exists (1 + (nN + n))%nat, sy, ([] ++ (eN ++ evs)).
       split; [eapply esteps_app; [exact E1|eapply esteps_app; [exact HnN|exact En]]|]. split; [exact Hsy|].
       split; [rewrite Hpcy; unfold kN, kB, zlength; rewrite !app_length; cbn [length]; rewrite !Nat2Z.inj_add; change (Z.of_nat (length counter_test)) with 4; change (Z.of_nat (length (counter_post None))) with 4; lia|].
-      split; [exact Hsty|exact Hty].
+      split; [exact Hsty|]. cbn [app]. rewrite Hty, HtN, app_assoc. reflexivity.
     + right. right. split; [exact Hinr|]. exists v. split; [exact Hsig|].
-      assert (E12 : esteps (1 + nN) im s = Some (s2, [] ++ [])) by (eapply esteps_app; [exact E1|exact HnN]).
-      exact (returned_rebase im ss s ss s2 (1 + nN)%nat ([] ++ []) ss' E12 eq_refl (loop_ret_stack s s2 (lv_set [] LV_COUNTER cnt) (m_frames s) [] eq_refl eq_refl eq_refl (Hd Hinr)) (eq_sym (app_nil_r _)) Hret).
+      assert (E12 : esteps (1 + nN) im s = Some (s2, [] ++ eN)) by (eapply esteps_app; [exact E1|exact HnN]).
+      apply (returned_rebase im ss s sa s2 (1 + nN)%nat ([] ++ eN) ss' E12); [|exact (loop_ret_stack s s2 (lv_set [] LV_COUNTER cnt) r2 [] Hfr2 Her2 Hsk2 (Hd Hinr))|exact HtN|exact Hret].
+      rewrite Hfr2. cbn [call_tail]. apply call_tail_fr_eq. exact Her2.
   - (* endless repeat: left only by break *)
     intros inl inr a Ha IHa after im ss s sig ss' fuel Hle Hload _ Hir Hd Hsim Hcode He.
     destruct fuel as [|[|fuel]]; try discriminate. rewrite exec_infinite in He.
@@ -2242,7 +2300,7 @@ Fixpoint simpleB_b (fuel : nat) (inl inr : bool) (st : stmt) : bool :=
       | SIf c a (Some b) => (plain_rval mt c || callval_b c || valexpr_b c) && simpleB_b f inl inr a && simpleB_b f inl inr b
       | SBlock l => forallb (simpleB_b f inl inr) l
       | SRepeat (LWhile c) a => (plain_rval mt c || callval_b c || valexpr_b c) && simpleB_b f true inr a
-      | SRepeat (LCount n) a => plain_rval mt n && simpleB_b f true inr a
+      | SRepeat (LCount n) a => (plain_rval mt n || callval_b n || valexpr_b n) && simpleB_b f true inr a
       | SRepeat LInfinite a => simpleB_b f true inr a
       | SRepeat (LRange v x y) a => plain_rval mt x && plain_rval mt y && simpleB_b f true inr a
       | SRepeat (LCountWith n (WRange v x y)) a => plain_rval mt n && plain_rval mt x && plain_rval mt y && simpleB_b f true inr a
@@ -2311,7 +2369,7 @@ Proof.
   - destruct l; try discriminate.
     + apply B_infinite. apply IH. exact H.
     + apply andb_true_iff in H. destruct H as [Hc Ha]. apply B_while; [exact (Hval c Hc)|apply IH; exact Ha].
-    + apply andb_true_iff in H. destruct H as [Hc Ha]. apply B_count; [exact Hc|apply IH; exact Ha].
+    + apply andb_true_iff in H. destruct H as [Hc Ha]. apply B_count; [exact (Hval n Hc)|apply IH; exact Ha].
     + apply andb_true_iff in H. destruct H as [H Ha]. apply andb_true_iff in H. destruct H as [Hx Hy].
       apply (B_idx rt mt inl inr _ _ _ _ (range_idx_form rt mt _ _ _ Hx Hy)). apply IH. exact Ha.
     + match goal with w : loop_with |- _ => destruct w end.
